@@ -671,6 +671,7 @@ func c04UfsValidity(dotu bool, depth int) Scenario {
 				ev{name: "link through 1 to fid 3 (a directory: refused)", msg: link("hd", "3"), add: -1, del: -1},
 				ev{name: "link through 1 to fid 7 (unknown)", msg: link("hu", "7"), add: -1, del: -1},
 				ev{name: "link through 1 to fid 1 (itself)", msg: link("hs", "1"), add: -1, del: -1},
+				ev{name: "link through 1 to 2^32+2 (no fid number)", msg: link("hb", "4294967298"), add: -1, del: -1},
 				ev{name: "symlink through 1", msg: func() *wire.Msg {
 					return &wire.Msg{Type: wire.Tcreate, Fid: 1, Name: "sl", Perm: go9p.DMSYMLINK | 0777, Mode: 0, Ext: "f"}
 				}, add: -1, del: -1})
